@@ -1,7 +1,7 @@
 (* C19 — Walk, transform and paths address exactly the members of a value.
    Statements only; proofs are `exact <lemma>` into Proofs/WalkProofs.v. *)
 From Coq Require Import Sorted.
-From Cty Require Import Base Ty BigFloat Value Hash Ops Refine SetAlg SetAlgProofs Walk WalkProofs.
+From Cty Require Import Base Ty BigFloat Value Hash Ops Refine SetAlg SetAlgProofs Walk WalkProofs JsonRoundTrip WalkIdentity.
 Open Scope Z_scope.
 
 (* path sets: the hash is coherent with path equivalence for ALL paths (any keys) ... *)
@@ -57,3 +57,16 @@ Print Assumptions C19_apply_compose.
 Print Assumptions C19_walk_root_first.
 Print Assumptions C19_walk_stops_at_null_unknown.
 Print Assumptions C19_attr_step_succeeds.
+
+(* ---- the identity transformation returns the value it was given, at every depth ---- *)
+(* for every value of the structural fragment [RT] (booleans, strings, nulls, unrefined unknowns, lists, tuples,
+   maps and objects, nested arbitrarily): taking the value apart member by member and rebuilding it with the
+   collection constructors gives back exactly that value, through the public entry point with its own fuel *)
+Theorem C19_identity_transform : forall norm unk t p, RT norm unk t p ->
+  transform norm (fun _ x => Ok x) (V t p) = Ok (V t p).
+Proof. exact transform_identity. Qed.
+Print Assumptions C19_identity_transform.
+Theorem C19_identity_transform_any_fuel : forall norm unk n t p, RT norm unk t p -> (pdepth p <= n)%nat ->
+  forall f q, (n < f)%nat -> transform_at norm (fun _ x => Ok x) (fun _ x => Ok x) f q (V t p) = Ok (V t p).
+Proof. exact transform_identity_at. Qed.
+Print Assumptions C19_identity_transform_any_fuel.
